@@ -16,7 +16,7 @@ from dataclasses import dataclass, field
 
 # physical dtype tags a declared dtype accepts without coercion (pandas)
 COMPAT = {
-    "int64": {"int64", "Int64"},
+    "int64": {"int64", "Int64", "range"},      # range = a pd.RangeIndex (index levels only)
     "float64": {"float64"},
     "str": {"object"},
     "bool": {"bool"},
@@ -32,6 +32,9 @@ def is_null(v):
 def check_cell(chk, v):
     """Does value v (non-null) satisfy builtin check chk? -> bool."""
     k, a = chk["kind"], chk["args"]
+    if k.startswith("custom_"):
+        # whole-column checks (one boolean / an exception): no cell fails them
+        return True
     if k == "eq":
         return v == a["value"]
     if k == "ne":
@@ -53,9 +56,9 @@ def check_cell(chk, v):
     if k == "notin":
         return not any(_same(v, x) for x in a["forbidden_values"])
     if k == "str_matches":
-        return re.match(a["pattern"], v) is not None
+        return re.match(a["pattern"], v, _flags(a)) is not None
     if k == "str_contains":
-        return re.search(a["pattern"], v) is not None
+        return re.search(a["pattern"], v, _flags(a)) is not None
     if k == "str_startswith":
         return v.startswith(a["string"])
     if k == "str_endswith":
@@ -65,6 +68,14 @@ def check_cell(chk, v):
         n = len(v)
         return (lo is None or n >= lo) and (hi is None or n <= hi)
     raise KeyError(k)
+
+
+def _flags(a):
+    """Flags of a compiled pattern (args carry them as a list of names)."""
+    f = 0
+    for name in a.get("flags") or []:
+        f |= getattr(re, name)
+    return f
 
 
 def _same(v, x):
@@ -175,6 +186,12 @@ def field_errors(fs, phys, values, where, name, errs, v):
         return
     for ci, chk in enumerate(fs.get("checks", [])):
         ign = chk.get("ignore_na", True)
+        if chk["kind"].startswith("custom_"):
+            e = custom_check_error(chk, [x for x in values if not is_null(x)] if ign else values,
+                                   name, ci, where)
+            if e is not None:
+                errs.append(e)
+            continue
         if not ign and phys != "float64" and any(is_null(x) for x in values):
             # what a comparison with pd.NA / None yields is not documented
             v.undecided = True
@@ -188,6 +205,23 @@ def field_errors(fs, phys, values, where, name, errs, v):
                 cells.append((i, x))
         if cells:
             errs.append(Err("DATAFRAME_CHECK", name, ci, cells, where=where))
+
+
+def custom_check_error(chk, values, name, ci, where):
+    """Checks whose function looks at the whole column / frame and returns ONE
+    boolean (an aggregate check) or raises: the violation cannot be attributed
+    to rows.  custom_agg: fn 'len_le' (number of values the function is shown
+    - nulls are dropped first under ignore_na - is <= value);
+    custom_raise: the function raises -> CHECK_ERROR."""
+    if chk["kind"] == "custom_raise":
+        return Err("CHECK_ERROR", name, ci, None, scalar="raised", where=where)
+    if chk["kind"] == "custom_agg":
+        if chk["args"]["fn"] == "len_le":
+            ok = len(values) <= chk["args"]["value"]
+        else:
+            raise KeyError(chk["args"]["fn"])
+        return None if ok else Err("DATAFRAME_CHECK", name, ci, None, scalar=False, where=where)
+    raise KeyError(chk["kind"])
 
 
 def match_regex(pattern, label):
@@ -273,7 +307,7 @@ def evaluate(spec, table):
     # ---- joint uniqueness
     uq = spec.get("unique")
     if uq:
-        groups = [uq] if all(isinstance(x, str) for x in uq) else uq
+        groups = [uq] if not any(isinstance(x, (list, tuple)) for x in uq) else uq
         for g in groups:
             cols = []
             for name in g:
@@ -308,6 +342,12 @@ def evaluate(spec, table):
                          col["phys"], col["values"], "column", col["name"], errs, v)
     # ---- frame-level checks apply to every cell of every column
     for ci, chk in enumerate(spec.get("checks") or []):
+        if chk["kind"].startswith("custom_"):
+            nrows = len(table["columns"][0]["values"]) if table["columns"] else 0
+            e = custom_check_error(chk, list(range(nrows)), None, ci, "frame")
+            if e is not None:
+                errs.append(e)
+            continue
         bad = []
         for col in table["columns"]:
             for i, x in enumerate(col["values"]):
